@@ -228,8 +228,7 @@ theorem C09_ctor_registrationComplete (sor : Option Bytes) (h : ∀ c, sor = som
     ∃ w bs, wireOf layout_RegistrationComplete = some w ∧
       Ctor.encodeWith layout_RegistrationComplete (Ctor.registrationComplete sor) = .ok bs ∧
       parse w bs = some (Intended.registrationComplete sor) := by
-  have hhdr : Ctor.gmmHeader (initMsg layout_RegistrationComplete) idx_RegistrationComplete_ExtendedProtocolDiscriminator
-      idx_RegistrationComplete_SpareHalfOctetAndSecurityHeaderType idx_RegistrationComplete_RegistrationCompleteMessageIdentity 0x43 true
+  have hbase : Ctor.registrationCompleteBase
       = .ok [some ⟨0, 0, [0x7E]⟩, some ⟨0, 0, [0x00]⟩, some ⟨0, 0, [0x43]⟩, none] := by decide +kernel
   obtain ⟨w, hw⟩ : ∃ w, wireOf layout_RegistrationComplete = some w :=
     Option.isSome_iff_exists.mp (by decide +kernel)
@@ -240,7 +239,7 @@ theorem C09_ctor_registrationComplete (sor : Option Bytes) (h : ∀ c, sor = som
     obtain ⟨bs, h1, h2⟩ := ctor_via_generic layout_RegistrationComplete (by simp [Gen.Nas.layouts]) (by decide +kernel)
       (Ctor.registrationComplete none)
       [some ⟨0, 0, [0x7E]⟩, some ⟨0, 0, [0x00]⟩, some ⟨0, 0, [0x43]⟩, none]
-      (by simp [Ctor.registrationComplete, hhdr, bind, Except.bind, pure, Except.pure])
+      (by simp [Ctor.registrationComplete, hbase])
       (by decide +kernel) (by rw [hsk]; rfl) w hw (Intended.registrationComplete none)
       (by simp [toSpec, layout_RegistrationComplete, mandToSpec, Intended.registrationComplete, Intended.present])
     exact ⟨bs, hw, h1, h2⟩
@@ -249,7 +248,7 @@ theorem C09_ctor_registrationComplete (sor : Option Bytes) (h : ∀ c, sor = som
     obtain ⟨bs, h1, h2⟩ := ctor_via_generic layout_RegistrationComplete (by simp [Gen.Nas.layouts]) (by decide +kernel)
       (Ctor.registrationComplete (some c))
       [some ⟨0, 0, [0x7E]⟩, some ⟨0, 0, [0x00]⟩, some ⟨0, 0, [0x43]⟩, some ⟨0x73, c.length, c⟩]
-      (by simp [Ctor.registrationComplete, hhdr, bind, Except.bind, pure, Except.pure, Ctor.setP,
+      (by simp [Ctor.registrationComplete, hbase, Ctor.setP,
             Ctor.bufIE_eq sh_SORTransparentContainer 0x73 65536 c _ rfl rfl (by omega) hc,
             idx_RegistrationComplete_SORTransparentContainer])
       (by simp [specWF, msgWF, mandValsOK, optValsOK, specValsOK, layout_RegistrationComplete, mandValOK, optValOK,
@@ -257,6 +256,49 @@ theorem C09_ctor_registrationComplete (sor : Option Bytes) (h : ∀ c, sor = som
             sh_RegistrationCompleteMessageIdentity, sh_SORTransparentContainer, Body.size, hc])
       (by rw [hsk]; rfl) w hw (Intended.registrationComplete (some c))
       (by simp [toSpec, layout_RegistrationComplete, mandToSpec, optToSpec, Intended.registrationComplete, Intended.present])
+    exact ⟨bs, hw, h1, h2⟩
+
+/-- `GetSecurityModeComplete`: the IMEISV (type of identity IMEISV, even, digits 1,1,1,0…) and, when given, the NAS
+    message container with any content below 64 KiB -/
+theorem C09_ctor_securityModeComplete (nmc : Option Bytes) (h : ∀ c, nmc = some c → c.length < 65536) :
+    ∃ w bs, wireOf layout_SecurityModeComplete = some w ∧
+      Ctor.encodeWith layout_SecurityModeComplete (Ctor.securityModeComplete nmc) = .ok bs ∧
+      parse w bs = some (Intended.securityModeComplete nmc) := by
+  have hbase : Ctor.securityModeCompleteBase
+      = .ok [some ⟨0, 0, [0x7E]⟩, some ⟨0, 0, [0x00]⟩, some ⟨0, 0, [0x5E]⟩,
+             some ⟨0x77, 9, [0x15, 0x11, 0, 0, 0, 0, 0, 0, 0]⟩, none] := by decide +kernel
+  obtain ⟨w, hw⟩ : ∃ w, wireOf layout_SecurityModeComplete = some w :=
+    Option.isSome_iff_exists.mp (by decide +kernel)
+  have hwo : ∀ c, w.opt.find? (fun x => x.iei == c) = (([⟨0x77, .tlve, 9, some 9⟩, ⟨0x71, .tlve, 1, none⟩] : List OWire).find? (fun x => x.iei == c)) := by
+    have : (wireOf layout_SecurityModeComplete).map (·.opt) = some [⟨0x77, .tlve, 9, some 9⟩, ⟨0x71, .tlve, 1, none⟩] := by
+      decide +kernel
+    rw [hw] at this
+    simp at this
+    intro c; rw [this]
+  refine ⟨w, ?_⟩
+  have hsk : skipOf layout_SecurityModeComplete = [] := by decide +kernel
+  cases nmc with
+  | none =>
+    obtain ⟨bs, h1, h2⟩ := ctor_via_generic layout_SecurityModeComplete (by simp [Gen.Nas.layouts]) (by decide +kernel)
+      (Ctor.securityModeComplete none) _
+      (by simp [Ctor.securityModeComplete, hbase]; rfl)
+      (by decide +kernel) (by rw [hsk]; rfl) w hw (Intended.securityModeComplete none)
+      (by simp [toSpec, layout_SecurityModeComplete, mandToSpec, optToSpec, Intended.securityModeComplete, Intended.present])
+    exact ⟨bs, hw, h1, h2⟩
+  | some c =>
+    have hc := h c rfl
+    obtain ⟨bs, h1, h2⟩ := ctor_via_generic layout_SecurityModeComplete (by simp [Gen.Nas.layouts]) (by decide +kernel)
+      (Ctor.securityModeComplete (some c))
+      [some ⟨0, 0, [0x7E]⟩, some ⟨0, 0, [0x00]⟩, some ⟨0, 0, [0x5E]⟩,
+       some ⟨0x77, 9, [0x15, 0x11, 0, 0, 0, 0, 0, 0, 0]⟩, some ⟨0x71, c.length, c⟩]
+      (by simp [Ctor.securityModeComplete, hbase, Ctor.setP,
+            Ctor.bufIE_eq sh_NASMessageContainer 0x71 65536 c _ rfl rfl (by omega) hc,
+            idx_SecurityModeComplete_NASMessageContainer])
+      (by simp [specWF, msgWF, mandValsOK, optValsOK, specValsOK, layout_SecurityModeComplete, mandValOK, optValOK,
+            specValOK, lenFits, sh_ExtendedProtocolDiscriminator, sh_SpareHalfOctetAndSecurityHeaderType,
+            sh_SecurityModeCompleteMessageIdentity, sh_NASMessageContainer, sh_IMEISV, Body.size, hc, allZero])
+      (by rw [hsk]; rfl) w hw (Intended.securityModeComplete (some c))
+      (by simp [toSpec, layout_SecurityModeComplete, mandToSpec, optToSpec, Intended.securityModeComplete, Intended.present])
     exact ⟨bs, hw, h1, h2⟩
 
 end
